@@ -514,6 +514,15 @@ var specC12Verify = Register(&Spec[VerifyCase]{
 				return errf("BestChecksums.Checksums() returned %d entries for %q", len(cs), doc)
 			}
 			fh = cs[0]
+			// the same variable filled with another document of the same shape: Checksums() shows
+			// the new entries, not what it worked out the first time
+			otherHash := trueDigest(map[bool]string{true: "sha512", false: "sha256"}[c.Source == "best512"], []byte("another document"))
+			doc2 := map[bool]string{true: "Checksums-Sha512:\n", false: "Checksums-Sha256:\n"}[c.Source == "best512"] + fmt.Sprintf(" %s 16 other.tar.gz\n", otherHash)
+			if err := control.Unmarshal(&b, strings.NewReader(doc2)); err == nil {
+				if cs2 := b.Checksums(); len(cs2) != 1 || cs2[0].Hash != otherHash || cs2[0].Filename != "other.tar.gz" {
+					return errf("after decoding a second document into the same BestChecksums, Checksums() = %+v, want the new entry %s other.tar.gz", cs2, otherHash)
+				}
+			}
 			if c.Source == "bestboth" {
 				// whichever was selected: its algorithm decides
 				if fh.Algorithm == "sha512" {
